@@ -459,7 +459,9 @@ def search_op(rng, st, mx, addr_id, pick=None, plain=False):
         headers.append(["USER-AGENT", "x/1.0 UPnP/2.0 y/1"])
     if not plain:
         rng.shuffle(headers)
-    return ["search", line, headers, addr_id, rng.choice(PICKS) if pick is None else pick]
+    if pick is None:
+        pick = rng.choice(PICKS) if rng.random() < 0.4 else rng.randrange(10 ** 6)
+    return ["search", line, headers, addr_id, pick]
 
 
 def base_case(rng, tree, domain=True):
@@ -621,9 +623,10 @@ class Plugin:
                 for mx in (None, "1", "3", "5", "10", "-1", "abc"):
                     cases.append(gen_sweep(rng, tree_of_shape(parents, rng), mx, full=True, cycles=3 if mx is None else 0))
                 for k in range(4):
-                    cases.append(gen_sweep(rng, tree_of_shape(parents, rng, [k] * (len(parents) + 1)), rng.choice(MXS),
-                                           full=True, cycles=1))
-            n_rand, n_bad, n_long = 1500, 400, 150
+                    for mx in (None, rng.choice(MXS[2:])):
+                        cases.append(gen_sweep(rng, tree_of_shape(parents, rng, [k] * (len(parents) + 1)), mx,
+                                               full=True, cycles=1))
+            n_rand, n_bad, n_long = 5000, 1200, 400
         else:
             for parents in rng.sample(shapes, 4):
                 cases.append(gen_sweep(rng, tree_of_shape(parents, rng), rng.choice([None, "1", "2", "5", "7"]), full=True,
@@ -711,6 +714,16 @@ class Plugin:
 
     def shrink(self, case):
         ops = case["ops"]
+        # one search alone (followed by enough time for its answers), then one search with the stop
+        for i, op in enumerate(ops):
+            if op[0] == "search" and len(ops) > 2:
+                c = dict(case)
+                c["ops"] = [op, ["advance", 6000]]
+                yield c
+        if len(ops) > 3 and any(op[0] == "stop" for op in ops):
+            c = dict(case)
+            c["ops"] = [["advance", 1], ["stop"]]
+            yield c
         for i in range(len(ops)):
             if len(ops) > 1:
                 c = dict(case)
